@@ -1008,7 +1008,7 @@ func migrateSetRun(cmd *cobra.Command, args []string, flags migrateSetFlags) (re
 				return err
 			}
 		// keep, but if with error mark "fixed"
-		case r.Version == version && (r.Error != "" || r.Total != r.Applied):
+		case r.Version <= version && (r.Error != "" || r.Total != r.Applied):
 			log.Set(r)
 			r.Type = migrate.RevisionTypeExecute | migrate.RevisionTypeResolved
 			if err := rrw.WriteRevision(ctx, r); err != nil {
